@@ -231,6 +231,91 @@ func TestSyndromes(t *testing.T) {
 			return
 		}
 	}
+	// hostile constants: a verifier that also accepts another checksum constant (Bech32m's 0x2bc830a3
+	// next to Bech32's 1, an all-zero residue, ...) accepts exactly the error patterns whose syndrome is
+	// the XOR of the two constants. Such patterns of weight <= 4 are computed from the table (meet in
+	// the middle) and tried end to end on valid strings of maximal length.
+	unpack := func(p uint32) (out [][2]int) {
+		if p == 0 {
+			return nil
+		}
+		out = append(out, [2]int{int(p >> 24), int(p >> 16 & 255)})
+		if p&0xffff != 0xffff {
+			out = append(out, [2]int{int(p >> 8 & 255), int(p & 255)})
+		}
+		return out
+	}
+	find := func(s uint32) (uint32, bool) {
+		i := sort.Search(len(all), func(i int) bool { return all[i].s >= s })
+		if i < len(all) && all[i].s == s {
+			return all[i].p, true
+		}
+		return 0, false
+	}
+	hostBulk := h.NewBulk("hostile-constant-cosets", "for each alternative checksum constant c (Bech32m 0x2bc830a3, 0, 0x3fffffff, 2) every weight<=4 pattern found by meet-in-the-middle whose syndrome is 1^c (up to 400 per constant, data and checksum positions) is applied to valid 90-character strings and Decode must reject; one evaluation per mutated string", nil, false)
+	for _, constant := range []uint32{0x2bc830a3, 0, 0x3fffffff, 2} {
+		delta := constant ^ 1
+		found := 0
+		for _, a := range all {
+			if found >= 400 {
+				break
+			}
+			pb, ok := find(a.s ^ delta)
+			if !ok {
+				continue
+			}
+			// combine the two halves into one pattern (same position: XOR the values)
+			comb := map[int]int{}
+			for _, dv := range append(unpack(a.p), unpack(pb)...) {
+				comb[dv[0]] ^= dv[1]
+			}
+			var pos []int
+			okPat := true
+			for d, v := range comb {
+				if v == 0 {
+					delete(comb, d)
+					continue
+				}
+				if d > 87 { // keep to data + checksum of a one-letter prefix with 82 data symbols
+					okPat = false
+				}
+				pos = append(pos, d)
+			}
+			if !okPat || len(comb) == 0 || len(comb) > 4 {
+				continue
+			}
+			found++
+			// valid 90-character string: prefix "a", 51 bytes of data (82 symbols), pattern bytes vary with the pattern
+			data := make([]byte, 51)
+			for i := range data {
+				data[i] = byte(i*29 + found)
+			}
+			base, err := bech32.Encode("a", data)
+			if err != nil || len(base) != 90 {
+				t.Fatalf("VERIF-INFRA cannot build the base string: %v", err)
+			}
+			m := []byte(base)
+			var ps []int
+			var rs []byte
+			for d, v := range comb {
+				i := len(m) - 1 - d
+				m[i] = ref.Charset[symOf(m[i])^v]
+				ps = append(ps, i)
+				rs = append(rs, m[i])
+			}
+			hostBulk.Add(fmt.Sprintf("constant-%08x/weight%d", constant, len(comb)), true, uint64(constant)<<32|uint64(a.p))
+			if _, _, err := bech32.Decode(string(m)); err == nil {
+				ec := e2eCase{S: h.S(base), Pos: ps, Repl: h.S(rs)}
+				h.Fail(t, "C16", "e2e", ec, fmt.Errorf("Decode accepted %q, which differs from the valid string %q in %d characters: the pattern's syndrome is %08x, i.e. the verifier also accepts the checksum constant %#x", m, base, len(comb), delta, constant))
+				hostBulk.Failed()
+				return
+			}
+			if found == 1 {
+				hostBulk.Sample(fmt.Sprintf("constant-%08x", constant), map[string]any{"base": base, "mutated": string(m), "positions_from_end": pos})
+			}
+		}
+		h.Note("hostile constant %#x: %d weight<=4 patterns with syndrome %08x tried end to end", constant, found, delta)
+	}
 	// pairs are recorded after the sort so a failure is reported quickly
 	for d1 := 0; d1 < 89; d1++ {
 		for d2 := d1 + 1; d2 < 89; d2++ {
@@ -348,6 +433,8 @@ func checkE2E(c e2eCase) (h.Info, error) {
 	// premise of the statement and of the syndrome argument: the unmodified valid string is accepted.
 	// If Decode rejects it, C16 cannot be decided by this check (that defect is C04/C05's to report):
 	// the run is marked inconclusive, it is neither a C16 violation nor a pass.
+	// (a failing call first: state left behind by an error path must not affect the next call)
+	_, _, _ = bech32.Decode("x1b" + s[len(s)-8:])
 	if _, _, err := bech32.Decode(s); err != nil {
 		premiseOnce.Do(func() {
 			fmt.Printf("VERIF-INFRA C16 premise broken: Decode rejects the valid Bech32 string %q (%v); C16 is undecidable on this tree, see C04/C05\n", s, err)
